@@ -19,11 +19,11 @@ impl Arb for u32 { fn arb(r: &mut Rng) -> Self { match r.below(5) { 0 => 0, 1 =>
 impl Arb for u16 { fn arb(r: &mut Rng) -> Self { match r.below(5) { 0 => 0, 1 => u16::MAX, 2 => 200, 3 => 404, _ => r.next() as u16 } } }
 impl Arb for u8 { fn arb(r: &mut Rng) -> Self { match r.below(4) { 0 => 0, 1 => 255, _ => r.next() as u8 } } }
 impl Arb for bool { fn arb(r: &mut Rng) -> Self { r.coin(1, 2) } }
-impl Arb for String { fn arb(r: &mut Rng) -> Self { rand_string(r, true) } }
+impl Arb for String { fn arb(r: &mut Rng) -> Self { let long = r.coin(1, 5); rand_string(r, long) } }
 impl Arb for char { fn arb(r: &mut Rng) -> Self { rand_char(r) } }
 pub struct Blob(pub Vec<u8>);
-impl Arb for Blob { fn arb(r: &mut Rng) -> Self { Blob(rand_bytes(r, true)) } }
-impl<T: Arb> Arb for Vec<T> { fn arb(r: &mut Rng) -> Self { let n = rand_len(r, false).min(10); (0..n).map(|_| T::arb(r)).collect() } }
+impl Arb for Blob { fn arb(r: &mut Rng) -> Self { let long = r.coin(1, 5); Blob(rand_bytes(r, long)) } }
+impl<T: Arb> Arb for Vec<T> { fn arb(r: &mut Rng) -> Self { let n = rand_len(r, false).min(7); (0..n).map(|_| T::arb(r)).collect() } }
 impl<T: Arb> Arb for Option<T> { fn arb(r: &mut Rng) -> Self { if r.coin(1, 3) { None } else { Some(T::arb(r)) } } }
 
 // ---- render / platform
